@@ -18,7 +18,7 @@ def main(tier, seed):
         hist = [it for it in items if it.meta['family'] != 'tt_core1']
         rnd.shuffle(core1)
         rnd.shuffle(hist)
-        items = core1[:360] + hist[:300]
+        items = core1[:280] + hist[:220]
     items += fam_tt.template_family(seed, tier)
     items += fam_tt.random_tt(seed, 30 if quick else 400)
     from hv import fam_ops
